@@ -40,6 +40,8 @@ type Profile struct {
 	HugeAmounts             bool
 	InvalidPct              int  // percentage of user ops deliberately targeting invalid inputs
 	FocusDelPct             int  // percentage of delegator draws forced to delegator 0 (packs buckets)
+	BoundaryPct             int  // percentage of block steps aimed at a pending completion instant (-1ns/=/+1ns); 0 = default 25
+	RepeatPct               int  // percentage of undelegate/redelegate draws that act again on the position touched last; 0 = default 25
 	FocusValPct             int  // percentage of delegate draws forced to validator 0 (several assets on one validator)
 	GovFuzz                 bool // governance messages with nil / negative / boundary / huge field values and all signers
 	NoOverflowGuard         bool
@@ -51,6 +53,7 @@ const (
 	GRedelThenExit    = "g:redelegate_then_exit"
 	GExportAtBoundary = "g:export_at_block_boundary"
 	GMultiRedelSlash  = "g:several_delegators_redelegate_then_slash"
+	GPackBucket       = "g:several_undelegations_of_one_delegator_in_one_block"
 )
 
 const (
@@ -303,6 +306,13 @@ func (g *Gen) dtRaw() int64 {
 	sort.Slice(bounds, func(i, j int) bool { return bounds[i] < bounds[j] })
 	interval := int64(s.Params.TakeRateClaimInterval)
 	mode := g.intn("dt-mode", 12)
+	if g.p.BoundaryPct > 0 && len(bounds) > 0 {
+		if g.pct("dt-boundary", g.p.BoundaryPct) {
+			mode = 0
+		} else {
+			mode = 3 + g.intn("dt-mode2", 9)
+		}
+	}
 	switch {
 	case mode < 3 && len(bounds) > 0:
 		b := bounds[g.intn("dt-bound", len(bounds))]
@@ -444,7 +454,11 @@ func (g *Gen) Step() {
 			op = Op{K: kind, D: g.intn("d", NumDels), V: g.intn("v", nv), W: g.intn("w", nv), Denom: g.anyDenom("denom"), Amt: g.freshAmount("amt")}
 		} else {
 			cands := s.Dels
-			if g.last != nil && g.pct("repeat-target", 25) {
+			rp := g.p.RepeatPct
+			if rp == 0 {
+				rp = 25
+			}
+			if g.last != nil && g.pct("repeat-target", rp) {
 				// act again on the position touched last (packs several entries into one bucket)
 				var same []DelSnap
 				for _, d := range s.Dels {
@@ -590,6 +604,45 @@ func (g *Gen) Step() {
 				x.Apply(Op{K: KSlash, V: d.V, Frac: g.frac(), Power: p, Age: int64(g.intn("age", 2))})
 			}
 		}
+	case GPackBucket:
+		// one delegator undelegates 2-3 times within one block, from the same or from other
+		// positions (validators / denoms): all entries share one (completion, delegator) bucket
+		if len(s.Dels) == 0 {
+			x.Apply(Op{K: KDelegate, D: g.del(), V: g.intn("v", nv), Denom: g.anyDenom("denom"), Amt: g.freshAmount("amt")})
+			return
+		}
+		first := s.Dels[g.intn("pos", len(s.Dels))]
+		if first.D < 0 || first.D == 100 {
+			return
+		}
+		n := 2 + g.intn("n", 2)
+		for i := 0; i < n; i++ {
+			cur := x.Post()
+			var mine []DelSnap
+			for _, d := range cur.Dels {
+				if d.D == first.D && d.V >= 0 {
+					mine = append(mine, d)
+				}
+			}
+			if len(mine) == 0 {
+				break
+			}
+			d := mine[g.intn("which", len(mine))]
+			if g.pct("same-position", 40) {
+				if sd, ok := cur.FindDel(first.D, first.V, first.Denom); ok {
+					d = sd
+				}
+			}
+			bal := cur.Reported(d)
+			if bal.Sign() <= 0 {
+				continue
+			}
+			amt := new(big.Int).Quo(bal, big.NewInt(int64(2+g.intn("div", 4))))
+			if amt.Sign() == 0 || g.pct("full", 15) {
+				amt = bal
+			}
+			x.Apply(Op{K: KUndelegate, D: d.D, V: d.V, Denom: d.Denom, Amt: amt.String()})
+		}
 	case GMultiRedelSlash:
 		// several delegators move stake of one asset from validator a to validator b while the
 		// source can still be slashed, then the source is slashed
@@ -620,7 +673,7 @@ func (g *Gen) Step() {
 			x.Apply(Op{K: KSlash, V: a, Frac: g.frac(), Power: p, Age: int64(g.intn("age", 2))})
 		}
 	case GExportAtBoundary:
-		if x.Twin != nil {
+		if x.Twin != nil || len(x.Log) < 14 {
 			x.Apply(Op{K: KBlock, Dt: g.dt(), Fees: g.fees()})
 			return
 		}
